@@ -418,3 +418,380 @@ keep("P17", "dispatcher: pop in finally written with the same guard via a local 
                 # leave the scope entered above
                 if scope:
                     self.resolver.pop_scope()''')])
+
+
+# --------------------------------------------------------------------------- C04 / C06 / C11 / C12 / C15 / C19 / C20
+brk("B16", "items (Draft 6): path=index -> path=0",
+    [(KV, '''        for index, item in enumerate(instance):
+            for error in validator.descend(item, items, path=index):
+                yield error
+
+
+def additionalItems''', '''        for index, item in enumerate(instance):
+            for error in validator.descend(item, items, path=0):
+                yield error
+
+
+def additionalItems''')], {"C06": "R6.1|"})
+
+brk("B17", "patternProperties: schema_path is the member name instead of the pattern",
+    [(KV, "v, subschema, path=k, schema_path=pattern,", "v, subschema, path=k, schema_path=k,")], {"C06": "R6.2|"})
+
+brk("B17b", "items array form: schema path off by one",
+    [(KV, '''            for error in validator.descend(
+                item, subschema, path=index, schema_path=index,
+            ):
+                yield error
+    else:
+        for index, item in enumerate(instance):
+            for error in validator.descend(item, items, path=index):''', '''            for error in validator.descend(
+                item, subschema, path=index, schema_path=index + 1,
+            ):
+                yield error
+    else:
+        for index, item in enumerate(instance):
+            for error in validator.descend(item, items, path=index):''')], {"C06": "R6.2|"})
+
+brk("B17c", "additionalItems: enumerate start dropped (paths restart at 0)",
+    [(KV, "for index, item in enumerate(instance[len_items:], start=len_items):", "for index, item in enumerate(instance[len_items:]):")],
+    {"C06": "R6.1|"})
+
+brk("B17d", "properties: path omitted",
+    [(KV, '''            for error in validator.descend(
+                instance[property],
+                subschema,
+                path=property,
+                schema_path=property,
+            ):
+                yield error
+
+
+def required''', '''            for error in validator.descend(
+                instance[property],
+                subschema,
+                schema_path=property,
+            ):
+                yield error
+
+
+def required''')], {"C06": "R6.1|"})
+
+brk("B18", "descend: truthiness guard instead of `is not None`",
+    [(V, '''                if path is not None:
+                    error.path.appendleft(path)''', '''                if path:
+                    error.path.appendleft(path)''')], {"C06": "R6.4|"})
+
+brk("B19", "descend: append for appendleft",
+    [(V, "                    error.schema_path.appendleft(schema_path)", "                    error.schema_path.append(schema_path)")], {"C06": "R6.4|"})
+
+brk("B20", "dispatcher: keyword prepended to schema_path also for $ref",
+    [(V, '''                        if k not in {u"if", u"$ref"}:''', '''                        if k not in {u"if"}:''')], {"C06": "R6.3|"})
+
+brk("B21", "absolute_path: parent's path appended on the right",
+    [(E, '''        path = deque(self.relative_path)
+        path.extendleft(reversed(parent.absolute_path))
+        return path''', '''        path = deque(self.relative_path)
+        path.extend(parent.absolute_path)
+        return path''')], {"C06": "R6.5|"})
+
+brk("B21b", "dispatcher stamps the schema value as validator",
+    [(V, '''                            validator=k,
+                            validator_value=v,''', '''                            validator=v,
+                            validator_value=k,''')], {"C06": "R6.3|"})
+
+brk("B36", "is_valid ignores _schema",
+    [(V, "            error = next(self.iter_errors(instance, _schema), None)", "            error = next(self.iter_errors(instance), None)")], {"C04": "R4.1|"})
+
+brk("B37", "module validate: construct the validator before check_schema",
+    [(V, '''    cls.check_schema(schema)
+    validator = cls(schema, *args, **kwargs)''', '''    validator = cls(schema, *args, **kwargs)
+    cls.check_schema(schema)''')], {"C04": "R4.3|"})
+
+brk("B38", "_contents drops cause",
+    [(E, '''            "message", "cause", "context", "validator", "validator_value",''', '''            "message", "context", "validator", "validator_value",''')], {"C04": "R4.4|"})
+
+brk("B39", "best_match returns a copy",
+    [(E, '''    while best.context:
+        best = min(best.context, key=key)
+    return best''', '''    while best.context:
+        best = min(best.context, key=key)
+    best = best.create_from(best)
+    return best''')], {"C04": "R4.5|"})
+
+brk("B39b", "validate() raises only errors that have a validator (skips false-schema errors)",
+    [(V, '''            for error in self.iter_errors(*args, **kwargs):
+                raise error''', '''            for error in self.iter_errors(*args, **kwargs):
+                if error.validator is not None:
+                    raise error''')], {"C04": "R4.2|"})
+
+brk("B39c", "module validate raises only when best_match has no context",
+    [(V, '''    if error is not None:
+        raise error''', '''    if error is not None and not error.context:
+        raise error''')], {"C04": "R4.2|"})
+
+brk("B40", "check_schema passes a format checker",
+    [(V, "            for error in cls(cls.META_SCHEMA).iter_errors(schema):", "            for error in cls(cls.META_SCHEMA, format_checker=_format_checker()).iter_errors(schema):")],
+    {"C11": "R11.1|", "C04": "R4.4b|"})
+
+brk("B41", "draft4.json: $ref to a missing definition",
+    [("schemas/draft4.json", '"minItems": { "$ref": "#/definitions/positiveIntegerDefault0" }', '"minItems": { "$ref": "#/definitions/positiveIntegerDefault" }')],
+    {"C11": "R11.2|"})
+
+brk("B42", "draft6.json: unknown type name",
+    [("schemas/draft6.json", '"type": "integer"', '"type": "integerr"')] if False else
+    [("schemas/draft6.json", '"uniqueItems": {\n            "type": "boolean",', '"uniqueItems": {\n            "type": "booleann",')],
+    {"C11": "R11.3|"})
+
+brk("B43", "format: drop the `is not None` test",
+    [(KV, '''    if validator.format_checker is not None:
+        try:
+            validator.format_checker.check(instance, format)
+        except FormatError as error:
+            yield ValidationError(error.message, cause=error.cause)''', '''    try:
+        validator.format_checker.check(instance, format)
+    except FormatError as error:
+        yield ValidationError(error.message, cause=error.cause)''')], {"C12": "R12.1|"})
+
+brk("B44", "format: except Exception",
+    [(KV, "        except FormatError as error:\n            yield ValidationError(error.message, cause=error.cause)",
+      "        except Exception as error:\n            yield ValidationError(error.message, cause=error.cause)")], {"C12": "R12.2|"})
+
+brk("B44b", "format: cause dropped",
+    [(KV, "            yield ValidationError(error.message, cause=error.cause)", "            yield ValidationError(error.message)")], {"C12": "R12.2|"})
+
+brk("B45", "check: drop the early return for unknown names",
+    [(F, '''        if format not in self.checkers:
+            return
+
+        func, raises = self.checkers[format]''', '''        func, raises = self.checkers[format]''')], {"C12": "R12.3|"})
+
+brk("B45b", "check: FormatError only when the result is exactly False",
+    [(F, "        if not result:\n            raise FormatError(", "        if result is False:\n            raise FormatError(")], {"C12": "R12.3|"})
+
+brk("B45c", "check: catches Exception instead of the entry's raises",
+    [(F, "        except raises as e:", "        except Exception as e:")], {"C12": "R12.3|"})
+
+brk("B45d", "conforms: returns True in the handler",
+    [(F, '''        except FormatError:
+            return False
+        else:
+            return True''', '''        except FormatError:
+            return True
+        else:
+            return True''')], {"C12": "R12.4|"})
+
+brk("B46", "is_ipv4: drop the string guard",
+    [(F, '''def is_ipv4(instance):
+    if not isinstance(instance, str):
+        return True
+    return ipaddress.IPv4Address(instance)''', '''def is_ipv4(instance):
+    return ipaddress.IPv4Address(instance)''')], {"C12": "R12.5|"})
+
+brk("B46b", "is_email: non-strings fail",
+    [(F, '''def is_email(instance):
+    if not isinstance(instance, str):
+        return True''', '''def is_email(instance):
+    if not isinstance(instance, str):
+        return False''')], {"C12": "R12.5|"})
+
+brk("B46c", "is_date: guard accepts bytes too and examines them",
+    [(F, '''def is_date(instance):
+    if not isinstance(instance, str):
+        return True''', '''def is_date(instance):
+    if not isinstance(instance, (str, int)):
+        return True''')], {"C12": "R12.5|"})
+
+brk("B08", "resolve_remote: store write outside `if self.cache_remote`",
+    [(V, '''        if self.cache_remote:
+            self.store[uri] = result
+        return result''', '''        self.store[uri] = result
+        return result''')], {"C15": "R15.3|"})
+
+brk("B09", "resolve_from_url: retrieval before the store lookup",
+    [(V, '''        try:
+            document = self.store[url]
+        except KeyError:
+            try:
+                document = self.resolve_remote(url)
+            except Exception as exc:
+                raise exceptions.RefResolutionError(exc)
+''', '''        try:
+            document = self.resolve_remote(url)
+        except Exception as exc:
+            try:
+                document = self.store[url]
+            except KeyError:
+                raise exceptions.RefResolutionError(exc)
+''')], {"C15": "R15.1|"})
+
+brk("B10", "URIDict.__getitem__: raw key",
+    [(U, "        return self.store[self.normalize(uri)]", "        return self.store[uri]")], {"C15": "R15.5|"})
+
+brk("B11", "resolve_from_url: drop the except Exception wrapper",
+    [(V, '''            try:
+                document = self.resolve_remote(url)
+            except Exception as exc:
+                raise exceptions.RefResolutionError(exc)
+''', '''            document = self.resolve_remote(url)
+''')], {"C15": "R15.2|"})
+
+brk("B11b", "resolver store is a plain dict",
+    [(V, '''        self.store = _utils.URIDict(
+            (id, validator.META_SCHEMA)
+            for id, validator in meta_schemas.items()
+        )''', '''        self.store = dict(
+            (id, validator.META_SCHEMA)
+            for id, validator in meta_schemas.items()
+        )''')], {"C15": "R15.4|"})
+
+brk("B11c", "remote cache shared across resolvers (class-level default)",
+    [(V, '''        if remote_cache is None:
+            remote_cache = lru_cache(1024)(self.resolve_from_url)''', '''        if remote_cache is None:
+            remote_cache = self.resolve_from_url''')], {"C15": "R15.6|"})
+
+brk("B60", "run: exit_code = _validate_instance(...)",
+    [(C, "            exit_code |= _validate_instance(", "            exit_code = _validate_instance(")], {"C19": "R19.3|"})
+
+brk("B61", "run: break after a load failure",
+    [(C, '''        except _CannotLoadFile:
+            exit_code = 1
+        else:''', '''        except _CannotLoadFile:
+            exit_code = 1
+            break
+        else:''')], {"C19": "R19.2|"})
+
+brk("B62", "_validate_instance: report only the first error",
+    [(C, '''        invalid = True
+        outputter.validation_error(instance_path=instance_path, error=error)
+''', '''        invalid = True
+        outputter.validation_error(instance_path=instance_path, error=error)
+        break
+''')], {"C19": "R19.4|"})
+
+brk("B63", "_Outputter.validation_error writes to stdout",
+    [(C, "        self._stderr.write(self._formatter.validation_error(**kwargs))", "        self._stdout.write(self._formatter.validation_error(**kwargs))")],
+    {"C19": "R19.5|"})
+
+brk("B64", "run: return 0 when check_schema fails",
+    [(C, '''            error=error,
+        )
+        return 1''', '''            error=error,
+        )
+        return 0''')], {"C19": "R19.1|"})
+
+brk("B64b", "loaders catch JSONDecodeError only (the pre-fix shape)",
+    [(C, '''        with file:
+            try:
+                return json.load(file)
+            except (JSONDecodeError, UnicodeDecodeError):''', '''        with file:
+            try:
+                return json.load(file)
+            except JSONDecodeError:''')], {"C19": "R19.7|"})
+
+brk("B64c", "run: load failure resets the status of earlier instances",
+    [(C, '''        except _CannotLoadFile:
+            exit_code = 1
+        else:''', '''        except _CannotLoadFile:
+            exit_code = 0
+        else:''')], {"C19": "R19.3|"})
+
+brk("B64d", "plain success prints a line on stdout",
+    [(C, '''    def validation_success(self, instance_path):
+        return ""''', '''    def validation_success(self, instance_path):
+        return "ok\\n"''')], {"C19": "R19.5|"})
+
+brk("B65", "validator_for: drop the warning",
+    [(V, '''    if schema[u"$schema"] not in meta_schemas:
+        warn(
+            (
+                "The metaschema specified by $schema was not found. "
+                "Using the latest draft to validate, but this will raise "
+                "an error in the future."
+            ),
+            DeprecationWarning,
+            stacklevel=2,
+        )
+    return meta_schemas.get''', '''    return meta_schemas.get''')], {"C20": "R20.1|"})
+
+brk("B66", "validator_for: return default for unknown URIs",
+    [(V, '''    return meta_schemas.get(schema[u"$schema"], _LATEST_VERSION)''', '''    return meta_schemas.get(schema[u"$schema"], default)''')], {"C20": "R20.1|"})
+
+brk("B67", "validate: always call validator_for",
+    [(V, '''    if cls is None:
+        cls = validator_for(schema)
+
+    cls.check_schema(schema)''', '''    cls = validator_for(schema)
+
+    cls.check_schema(schema)''')], {"C20": "R20.3|"})
+
+brk("B68", "_validates: meta_schemas.clear() before storing",
+    [(V, '''        if meta_schema_id:
+            meta_schemas[meta_schema_id] = cls''', '''        if meta_schema_id:
+            meta_schemas.clear()
+            meta_schemas[meta_schema_id] = cls''')], {"C20": "R20.4|"})
+
+brk("B68b", "_LATEST_VERSION bound to Draft 6",
+    [(V, "_LATEST_VERSION = Draft7Validator", "_LATEST_VERSION = Draft6Validator")], {"C20": "R20.2|"})
+
+brk("B68c", "cli: --validator ignored when the schema declares $schema",
+    [(C, '''    if arguments["validator"] is None:
+        arguments["validator"] = validator_for(schema)''', '''    if arguments["validator"] is None or "$schema" in schema:
+        arguments["validator"] = validator_for(schema)''')], {"C20": "R20.3|"})
+
+brk("B68d", "draft7.json: $id without the trailing path (not the draft URI)",
+    [("schemas/draft7.json", '"$id": "http://json-schema.org/draft-07/schema#"', '"$id": "http://json-schema.org/draft-07/schema-x#"')],
+    {"C20": "R20.5|", "C11": "R11.5|"})
+
+keep("P20", "check(): `if not result` written as `if result: return` + raise",
+     [(F, '''        if not result:
+            raise FormatError(
+                "%r is not a %r" % (instance, format), cause=cause,
+            )''', '''        if result:
+            return
+        raise FormatError(
+            "%r is not a %r" % (instance, format), cause=cause,
+        )''')])
+
+keep("P21", "is_ipv6: guard written positively",
+     [(F, '''def is_ipv6(instance):
+    if not isinstance(instance, str):
+        return True
+    address = ipaddress.IPv6Address(instance)
+    return not getattr(address, "scope_id", "")''', '''def is_ipv6(instance):
+    if isinstance(instance, str):
+        address = ipaddress.IPv6Address(instance)
+        return not getattr(address, "scope_id", "")
+    return True''')])
+
+keep("P22", "run: exit_code updated with `or`",
+     [(C, '''            exit_code |= _validate_instance(''', '''            exit_code = exit_code or _validate_instance(''')])
+
+keep("P23", "validator_for: test order swapped in the `or` chain",
+     [(V, '''    if schema is True or schema is False or u"$schema" not in schema:''', '''    if schema is False or schema is True or u"$schema" not in schema:''')])
+
+keep("P24", "descend: guards swapped in order",
+     [(V, '''                if path is not None:
+                    error.path.appendleft(path)
+                if schema_path is not None:
+                    error.schema_path.appendleft(schema_path)''', '''                if schema_path is not None:
+                    error.schema_path.appendleft(schema_path)
+                if path is not None:
+                    error.path.appendleft(path)''')])
+
+keep("P25", "items: enumerate over instance hoisted into a local",
+     [(KV, '''        for (index, item), subschema in zip(enumerate(instance), items):
+            for error in validator.descend(
+                item, subschema, path=index, schema_path=index,
+            ):
+                yield error
+    else:
+        for index, item in enumerate(instance):
+            for error in validator.descend(item, items, path=index):''', '''        numbered = enumerate(instance)
+        for (index, item), subschema in zip(numbered, items):
+            for error in validator.descend(
+                item, subschema, path=index, schema_path=index,
+            ):
+                yield error
+    else:
+        for index, item in enumerate(instance):
+            for error in validator.descend(item, items, path=index):''')])
